@@ -196,3 +196,11 @@ func (c *Ctx) noteAnalysis(a *pta.Analysis) {
 		c.R.Remark("external calls modelled by A3: %s", strings.Join(ex, "; "))
 	}
 }
+
+// posv: position of a value (instruction position if it is one, else its own).
+func (c *Ctx) posv(v ssa.Value) string {
+	if in, ok := v.(ssa.Instruction); ok {
+		return c.P.InstrPos(in)
+	}
+	return c.P.Pos(v.Pos())
+}
